@@ -149,5 +149,7 @@ def case_fasta(run, i):
 
 
 WORKLOADS = {"fasta": (_n, case_fasta)}
-_Q = {"access.get_regions|held": 800, "access.do_access|held": 450}
+_Q = {"access.get_regions|held": 400, "access.do_access|held": 450}     # get_regions: what the direct calls of the workload alone give (do_access need not route through it)
 QUOTAS = {"quick": _Q, "thorough": _Q}
+
+INTERNAL_MONITORS = {"access.get_regions": []}
